@@ -3,7 +3,7 @@
    run), Diagram/Diagram.v, Diagram/SubDiagram.v.  Spec: Diagram/FieldKindSpec.v, Diagram/DiagramSpec.v. *)
 From Coq Require Import List Bool PArith.
 From Krrood Require Import Base.Sx Diagram.Ty Diagram.FieldKindSpec Diagram.DiagramSpec Gen.FieldKind
-  Diagram.FieldKindProofs Diagram.Diagram Diagram.SubDiagram.
+  Diagram.FieldKindProofs Diagram.Diagram Diagram.DiagramProofs Diagram.SpecExec Diagram.SubDiagram.
 Import ListNotations.
 Local Open Scope positive_scope.
 
@@ -12,6 +12,32 @@ Local Open Scope positive_scope.
 Theorem C17_classify : forall f : wfield,
   wf_ty (resolved_type f) = true -> kinds_of f = Ok (spec_kind (resolved_type f)).
 Proof. exact classify_ok. Qed.
+
+(* the same for declared annotations: forward references at the leaves resolve (through the module namespace) into
+   the supported grammar, to the class they name *)
+Theorem C17_classify_declared : forall p t d df, wf_ann t = true -> leaf_ok p t = true ->
+  exists rt, resolve p t = Ok rt /\
+    kinds_of {| resolved_type := rt; has_default := d; has_default_factory := df |} = Ok (spec_kind rt) /\
+    forall c, about rt c = about t c.
+Proof. exact classify_declared. Qed.
+
+(* for every well-formed program (any declaration order Python admits, forward references anywhere, single and
+   multiple inheritance of any depth) and every list of distinct dataclasses of it: construction succeeds, the
+   nodes are the given classes in the given order, no edge occurs twice and an edge is present exactly when the
+   Spec demands it (inheritance: direct base, both in the diagram; association: a public field declared by the
+   class or an ancestor whose annotation, seen through Optional / container / Type[...] and forward references,
+   is a class of the diagram) *)
+Theorem C17_edges : forall p cs, wf_prog p = true -> wf_classes p cs = true ->
+  exists g, build p cs = Ok g /\ g_nodes g = cs /\ NoDup (g_edges g) /\
+            forall e, In e (g_edges g) <-> spec_edge p cs e.
+Proof. exact build_meets_spec. Qed.
+
+(* the same against the executable form of the Spec that the correspondence check runs: same nodes, same edge
+   set, and the model lists no edge twice *)
+Theorem C17_edges_exec : forall p cs, wf_prog p = true -> wf_classes p cs = true ->
+  exists g, build p cs = Ok g /\ g_nodes g = g_nodes (spec_graph p cs) /\ NoDup (g_edges g) /\
+            forall e, In e (g_edges g) <-> In e (g_edges (spec_graph p cs)).
+Proof. exact build_matches_spec_graph. Qed.
 
 (* no sequence of read-only operations (sub-diagram derivations with either flag, shallow copies, queries,
    rendering), applied to the diagram or to any view derived from it, changes the diagram *)
@@ -34,14 +60,31 @@ Theorem C17_refuted_union_none_first : exists f : wfield,
   s_optional (resolved_type f) = true /\ kinds_of f <> Ok (spec_kind (resolved_type f)).
 Proof. exact union_none_first_refuted. Qed.
 
+(* outside the fragment: a module that sees two classes under `if TYPE_CHECKING:` only; with one of them
+   missing from the diagram construction raises NameError although the Spec has edges; with both present it works *)
+Theorem C17_refuted_two_unresolved :
+  build two_unresolved_prog [2; 3] = Raise NameError
+  /\ (exists e, In e (g_edges (spec_graph two_unresolved_prog [2; 3])) /\ e_kind e = EAssoc)
+  /\ (exists g, build two_unresolved_prog [2; 3; 4] = Ok g).
+Proof. exact two_unresolved_refuted. Qed.
+
 Example C17_nonvacuous :
   wf_ty (Optional (Cls 2)) = true /\ wf_ty (Cont KList (Enum 3)) = true /\ wf_ty (TypeOf (Cls 2)) = true /\
   k_one_to_one (spec_kind (Optional (Cls 2))) = true /\ k_endpoint (spec_kind (TypeOf (Cls 2))) = Cls 2 /\
-  g_edges (sub_graph false witness_graph) <> g_edges witness_graph.
-Proof. repeat split; try reflexivity. vm_compute. discriminate. Qed.
+  g_edges (sub_graph false witness_graph) <> g_edges witness_graph /\
+  wf_prog example_prog = true /\ wf_classes example_prog [4; 3; 2] = true /\
+  build example_prog [4; 3; 2]
+  = Ok (mk_graph [4; 3; 2] [mk_edge EInh 2 4 1; mk_edge EAssoc 4 3 6; mk_edge EAssoc 2 3 6]).
+Proof.
+  repeat split; try reflexivity; try apply example_in_fragment. vm_compute. discriminate.
+Qed.
 
 Print Assumptions C17_classify.
+Print Assumptions C17_classify_declared.
+Print Assumptions C17_edges.
+Print Assumptions C17_edges_exec.
 Print Assumptions C17_views_pure.
 Print Assumptions C17_views_pure_all.
 Print Assumptions C17_refuted_subdiagram_before_fix.
 Print Assumptions C17_refuted_union_none_first.
+Print Assumptions C17_refuted_two_unresolved.
